@@ -6,7 +6,7 @@ from ..util import stream
 
 PROP = "C06"
 LEVEL = "exploration"
-N = {"quick": 20000, "thorough": 500000}
+N = {"quick": 150000, "thorough": 3000000}
 RULE = ("seeded instance x filter (any instance without filter; positive durations under every filter / "
         "composition) x dispatch history with queries, invalid requests and resets; current_time() and "
         "completed_operations() compared between every pair of consecutive states; non-trivial: >= 3 dispatches; "
